@@ -13,7 +13,7 @@ WRAPS  := nni_plat_mtx_lock nni_plat_mtx_unlock nni_plat_cv_wake nni_plat_cv_wak
 WRAPF  := $(foreach w,$(WRAPS),-Wl,--wrap=$(w))
 
 # in-process properties / properties under the deterministic scheduler (DST)
-PURE   := C17 C19 C18
+PURE   := C17 C19 C18 C16P
 DST    := C05 C15 C06 C08 C09 C04 C07 C11 C12 C13 C02 C10 C14 C03 C20 C16 C18Q C16H C11U C20P
 # DST + short-transfer injection on the stream syscalls
 DSTIO  := C01
@@ -42,6 +42,8 @@ $(B)/obj/%.o: $(V)/props/%.cpp $(V)/engine/pbt.hpp $(wildcard $(V)/props/*.hpp) 
 EXTRA :=
 $(B)/bin/C18: EXTRA = $(B)/obj/shim_core.o
 $(B)/bin/C18: $(B)/obj/shim_core.o
+$(B)/bin/C16P: EXTRA = $(B)/obj/shim_http.o
+$(B)/bin/C16P: $(B)/obj/shim_http.o
 DSTOBJ := $(B)/obj/vsched.o $(B)/obj/nngh.o $(B)/obj/rawpeer.o
 $(addprefix $(B)/bin/,$(DST)): EXTRA = $(DSTOBJ) $(WRAPF)
 $(addprefix $(B)/bin/,$(DST)): $(DSTOBJ)
@@ -61,6 +63,13 @@ $(B)/obj/fz_caseio.o: $(V)/engine/caseio.c
 $(B)/bin/fz_%: $(V)/fuzz/fz_%.cc $(B)/obj/fz_caseio.o $(FUZZLIB) $(wildcard $(V)/props/*.hpp)
 	@mkdir -p $(B)/bin
 	$(CXX) $(CXXFLAGS) -fsanitize=fuzzer -o $@ $< $(B)/obj/fz_caseio.o $(FUZZLIB) -lpthread
+
+$(B)/obj/fz_shim_http.o: $(V)/props/shim_http.c $(FUZZLIB)
+	@mkdir -p $(B)/obj
+	$(CC) $(CFLAGS) $(shell cat $(B)/fuzz/nng_defs.txt) -fsanitize=fuzzer-no-link -c $< -o $@
+$(B)/bin/fz_chunk: $(V)/fuzz/fz_chunk.cc $(B)/obj/fz_caseio.o $(B)/obj/fz_shim_http.o $(FUZZLIB) $(wildcard $(V)/props/*.hpp)
+	@mkdir -p $(B)/bin
+	$(CXX) $(CXXFLAGS) -fsanitize=fuzzer -o $@ $< $(B)/obj/fz_caseio.o $(B)/obj/fz_shim_http.o $(FUZZLIB) -lpthread
 
 # fuzz targets that need the deterministic scheduler and the raw peer
 FZDST := $(B)/obj/fz_vsched.o $(B)/obj/fz_nngh.o $(B)/obj/fz_rawpeer.o
